@@ -7,6 +7,7 @@ import Mathlib.Tactic.NormNum
 import Mathlib.Data.List.Basic
 import Mathlib.RingTheory.Derivation.Basic
 import Mathlib.Algebra.MvPolynomial.PDeriv
+import Mathlib.Analysis.SpecialFunctions.Trigonometric.Deriv
 /-
 C19 - vector and tensor components are tied to the right basis vectors.
 Property theorems about `PdeVerif.Coords` (model of pde/grids/coordinates/*.py,
@@ -846,5 +847,77 @@ example : ((3 / 5 : ℚ)) ^ 2 + (4 / 5) ^ 2 = 1 ∧ ((5 / 4 : ℚ)) ^ 2 - (3 / 4
 /-- the hypotheses of the divergence statements hold for polynomials over `ℚ` -/
 example : Coords2 (K := ℚ) (MvPolynomial.pderiv (0 : Fin 2)) (MvPolynomial.pderiv (1 : Fin 2))
     (MvPolynomial.X 0) (MvPolynomial.X 1) := coords2_mvPolynomial
+
+/-! ### 10. `K = ℝ` with the real `cos`, `sin`: the pairs are genuine and the model's Jacobian is the
+derivative of the model's `pos_to_cart` (which C12 ties to the code) -/
+
+section
+open Real
+
+/-- the pairs of real angles satisfy the hypotheses of all statements above -/
+theorem real_angles_wf (θ φ : ℝ) : (⟨cos θ, sin θ, cos φ, sin φ⟩ : Angles ℝ).WF :=
+  ⟨by simp [cos_sq_add_sin_sq], by simp [cos_sq_add_sin_sq]⟩
+
+/-- component `i` of a list-valued map / entry `(i, j)` of a matrix -/
+def compAt (i : ℕ) (v : Vec ℝ) : ℝ := v.getD i 0
+def entryAt (i j : ℕ) (m : Mat ℝ) : ℝ := (m.getD i []).getD j 0
+
+/-- **C19** `mapping_jacobian` of polar coordinates is the derivative of `pos_to_cart`:
+entry `(i, j)` is `∂x_i/∂q_j` -/
+theorem polar_jacobian_hasDerivAt (r φ : ℝ) (i : ℕ) (hi : i < 2) :
+    HasDerivAt (fun ρ => compAt i (polarToCart ρ (cos φ) (sin φ))) (entryAt i 0 (polarJac r (cos φ) (sin φ))) r ∧
+    HasDerivAt (fun ψ => compAt i (polarToCart r (cos ψ) (sin ψ))) (entryAt i 1 (polarJac r (cos φ) (sin φ))) φ := by
+  have h : i = 0 ∨ i = 1 := by omega
+  rcases h with rfl | rfl <;> simp [compAt, entryAt, polarToCart, polarJac] <;> constructor
+  · simpa using (hasDerivAt_id r).mul_const (cos φ)
+  · simpa using (hasDerivAt_cos φ).const_mul r
+  · simpa using (hasDerivAt_id r).mul_const (sin φ)
+  · simpa using (hasDerivAt_sin φ).const_mul r
+
+/-- **C19** the same for cylindrical coordinates `(r, φ, z)` -/
+theorem cyl_jacobian_hasDerivAt (r φ z : ℝ) (i : ℕ) (hi : i < 3) :
+    HasDerivAt (fun ρ => compAt i (cylToCart ρ (cos φ) (sin φ) z)) (entryAt i 0 (cylJac r (cos φ) (sin φ))) r ∧
+    HasDerivAt (fun ψ => compAt i (cylToCart r (cos ψ) (sin ψ) z)) (entryAt i 1 (cylJac r (cos φ) (sin φ))) φ ∧
+    HasDerivAt (fun ζ => compAt i (cylToCart r (cos φ) (sin φ) ζ)) (entryAt i 2 (cylJac r (cos φ) (sin φ))) z := by
+  have h : i = 0 ∨ i = 1 ∨ i = 2 := by omega
+  rcases h with rfl | rfl | rfl <;> simp [compAt, entryAt, cylToCart, cylJac, zero, one] <;> refine ⟨?_, ?_, ?_⟩
+  · simpa using (hasDerivAt_id r).mul_const (cos φ)
+  · simpa using (hasDerivAt_cos φ).const_mul r
+  · exact hasDerivAt_const _ _
+  · simpa using (hasDerivAt_id r).mul_const (sin φ)
+  · simpa using (hasDerivAt_sin φ).const_mul r
+  · exact hasDerivAt_const _ _
+  · exact hasDerivAt_const _ _
+  · exact hasDerivAt_const _ _
+  · exact hasDerivAt_id z
+
+/-- **C19** the same for spherical coordinates `(r, θ, φ)` -/
+theorem sph_jacobian_hasDerivAt (r θ φ : ℝ) (i : ℕ) (hi : i < 3) :
+    HasDerivAt (fun ρ => compAt i (sphToCart ρ (cos θ) (sin θ) (cos φ) (sin φ)))
+      (entryAt i 0 (sphJac r (cos θ) (sin θ) (cos φ) (sin φ))) r ∧
+    HasDerivAt (fun ϑ => compAt i (sphToCart r (cos ϑ) (sin ϑ) (cos φ) (sin φ)))
+      (entryAt i 1 (sphJac r (cos θ) (sin θ) (cos φ) (sin φ))) θ ∧
+    HasDerivAt (fun ψ => compAt i (sphToCart r (cos θ) (sin θ) (cos ψ) (sin ψ)))
+      (entryAt i 2 (sphJac r (cos θ) (sin θ) (cos φ) (sin φ))) φ := by
+  have h : i = 0 ∨ i = 1 ∨ i = 2 := by omega
+  rcases h with rfl | rfl | rfl <;> simp [compAt, entryAt, sphToCart, sphJac, zero] <;> refine ⟨?_, ?_, ?_⟩
+  · have := ((hasDerivAt_id r).mul_const (sin θ)).mul_const (cos φ)
+    exact this.congr_deriv (by ring)
+  · have := ((hasDerivAt_sin θ).const_mul r).mul_const (cos φ)
+    exact this.congr_deriv (by ring)
+  · have := (hasDerivAt_cos φ).const_mul (r * sin θ)
+    exact this.congr_deriv (by ring)
+  · have := ((hasDerivAt_id r).mul_const (sin θ)).mul_const (sin φ)
+    exact this.congr_deriv (by ring)
+  · have := ((hasDerivAt_sin θ).const_mul r).mul_const (sin φ)
+    exact this.congr_deriv (by ring)
+  · have := (hasDerivAt_sin φ).const_mul (r * sin θ)
+    exact this.congr_deriv (by ring)
+  · simpa using (hasDerivAt_id r).mul_const (cos θ)
+  · have := (hasDerivAt_cos θ).const_mul r
+    exact this.congr_deriv (by ring)
+  · exact hasDerivAt_const _ _
+
+end
 
 end PdeVerif.Coords
